@@ -35,45 +35,29 @@ def check(ctx):
     N = Normalizer(P, M)
     obs = []
 
-    # ---- C12.1 ---------------------------------------------------------------------------------
-    o = Ob('C12.1', 'K2', 'create_work_order: False <=> duplicate; otherwise enter_queue recorded, order appended at the tail with the reported capacity, scan triggered, True')
-    obs.append(o)
+    # ---- C12.1 / C12.2 ------------------------------------------------------------------------
+    # One exploration of create_work_order with the duplicate test inlined (wherever it is written: a helper, in place, any()/chain),
+    # the two lists described by ghosts "holds an order with the same target and tag" (exists-loop model), four cases.
     RH = dv.record_helper(P, M)
     if RH is None:
         raise AnalysisError('Maintainer: the helper that records work-order datapoints was not found')
-    g = ctx.graph(M, 'create_work_order', boolean=True, opaque=('_is_work_order_requested', 'try_working_requests', RH[0]))
     fn = P.method(M, 'create_work_order')[1]
-    dup = [(n, cl) for n in g.nodes.values() for cl in calls_at(g, n) if call_attr(cl) == '_is_work_order_requested']
-    o.count()
     params = [a.arg for a in fn.args.args][1:]
-    def _dup_args(c_, frame):
-        b_ = dv.bind_method_call(P, M, c_) or {}
-        return [dv.canon_text(v, frame) for v in b_.values()]
-    if len(dup) != 1 or _dup_args(dup[0][1], dup[0][0].frame) != params[:2]:
-        o.fail(P, 'Maintainer.create_work_order', 'if self._is_work_order_requested(target, tag): return False', 'the duplicate test on (target, tag) is missing or tests something else',
-               file=M.mod.path, line=fn.lineno)
+    helper = P.lookup(M, '_is_work_order_requested')
+    search_fns = [fn] + ([helper[2]] if helper and helper[1] == 'method' else [])
+    member_tests = [x for f_ in search_fns for x in ast.walk(f_) if isinstance(x, ast.Compare) and len(x.ops) == 1 and isinstance(x.ops[0], (ast.In, ast.NotIn))
+                    and ast.unparse(x.comparators[0]) in ('self._request_queue', 'self._active_requests')]
+    if member_tests and len(search_fns) == 2:
+        _c12_12_by_helper(ctx, P, M, N, obs)
+    elif member_tests:
+        raise AnalysisError('Maintainer.create_work_order: duplicate test phrased as list membership in place (not modelled)')
     else:
-        d = dup[0][0]
-        o.witness('dup-test')
-        # the answer of the duplicate test is a ghost: for both values the operation is explored to its true / false exits (the test may be
-        # used directly as a condition, negated, or kept in a local)
-        def effect_hook(an_, n, before, after):
-            st = after
-            if n is d:
-                st = st.with_flag('tested')
-            elif n.kind == 'stmt' and 'tested' in st.flags and any(call_attr(c_) != '_is_work_order_requested' for c_ in calls_at(g, n)):
-                st = st.with_flag('effect')       # anything done after the test has answered "duplicate"
-            return st
-        and_ = Analysis(P, g, ['#dup'], call_models={'_is_work_order_requested': lambda call, st, frame: st.fields.get('#dup', TOP)})
-        and_.node_hooks.append(effect_hook)
-        o.count(2)
-        for dv_ in 'TF':
-            resd = ctx.explore(and_, [State({'#dup': dv_})])
-            yes, no = resd.at(g.exitT), resd.at(g.exitF)
-            if dv_ == 'T' and (yes or any('effect' in s_.flags for s_ in no)):
-                o.fail(P, 'Maintainer.create_work_order', None, 'a duplicate request is not simply rejected (returns True or has effects)', node=d)
-            if dv_ == 'F' and no:
-                o.fail(P, 'Maintainer.create_work_order', None, 'a new request can be rejected although it is not a duplicate', node=d)
+        o = Ob('C12.1', 'K2', 'create_work_order: False <=> duplicate, and then nothing else happens; otherwise enter_queue recorded, order appended at the tail with the reported capacity, '
+                              'scan triggered after the append, True')
+        o2 = Ob('C12.2', 'K17', 'the duplicate test answers "duplicate" iff an order with the same target AND the same tag is queued or in progress (exists-loop model, 4 cases)')
+        obs += [o, o2]
+        g = ctx.graph(M, 'create_work_order', boolean=True, opaque=('try_working_requests', RH[0]))
+        EL = ExistsLoops({'self._request_queue': '#dupQ', 'self._active_requests': '#dupA'}, [('target', eq_fact('target', params[0])), ('tag', eq_fact('tag', params[1]))])
 
         def hook(an, n, before, after):
             st = after
@@ -88,109 +72,79 @@ def check(ctx):
                     st = st.with_flag('queued-not-at-tail')
                 if nm == 'try_working_requests':
                     st = st.with_flag('scan-after-queue' if any(f.startswith('queued:') for f in st.flags) else 'scan-before-queue')
+                if nm in ('get_work_order_capacity', 'get_work_order_duration', 'get_work_order_cost', 'start_work', 'end_work', 'schedule_event'):
+                    st = st.with_flag('hook:' + nm)
             return st
-        an = Analysis(P, g, ['#dup'], call_models={'_is_work_order_requested': lambda call, st, frame: st.fields.get('#dup', TOP)})
+        an = Analysis(P, g, EL.fields())
+        EL.install(an)
         an.node_hooks.append(hook)
-        res = ctx.explore(an, [State({'#dup': 'F'})])
         defs = single_defs(fn)
-        for st in res.at(g.exitT):
-            o.count()
-            q = [f for f in st.flags if f.startswith('queued:')]
-            bad = None
-            if len(q) != 1 or 'queued-not-at-tail' in st.flags:
-                bad = 'an accepted order must be appended once at the tail of the queue'
-            else:
-                var = q[0].split(':', 1)[1]
-                d_ = defs.get(var)
-                capv = None
-                wo_args = None
-                if isinstance(d_, ast.Call) and ast.unparse(d_.func) == '_WorkOrder' and P.has_cls('_WorkOrder'):
-                    wfn = P.method(P.cls('_WorkOrder'), '__init__')[1]
-                    wparams = [a_.arg for a_ in wfn.args.args][1:]
-                    bnd = dict(zip(wparams, d_.args))
-                    bnd.update({k.arg: k.value for k in d_.keywords if k.arg})
-                    if len(wparams) == 4 and set(bnd) == set(wparams):
-                        wo_args = [ast.unparse(bnd[p_]) for p_ in wparams]
-                if wo_args is not None:
-                    a0, a1, a2, a3 = wo_args
-                    capd = defs.get(a2)
-                    capv = ast.unparse(capd) if capd is not None else a2
-                    if (a0, a1, a3) != (params[0], params[1], params[2]) or capv != f'{params[0]}.get_work_order_capacity({params[1]})':
-                        bad = 'the queued order must be built from (target, tag, capacity reported by the target for this tag, info)'
+        import itertools
+        for q, a_ in itertools.product('TF', 'TF'):
+            res = ctx.explore(an, [State(EL.entry(**{'#dupQ': q, '#dupA': a_}))])
+            yes, no = res.at(g.exitT), res.at(g.exitF)
+            o.count(); o2.count()
+            dup_ = q == 'T' or a_ == 'T'
+            case = f'an order with the same target and tag is {"" if q == "T" else "not "}queued and {"" if a_ == "T" else "not "}in progress'
+            if not yes and not no:
+                o2.fail(P, 'Maintainer.create_work_order', fn, f'{case}: create_work_order has no normal exit', file=M.mod.path, line=fn.lineno)
+                continue
+            if dup_:
+                if yes:
+                    o2.fail(P, 'Maintainer.create_work_order', 'for r in self._request_queue / self._active_requests: if r.target == target and r.tag == tag: return False',
+                            f'{case}: the request can be accepted (an order is a duplicate iff an order with the same target AND the same tag is queued or in progress)',
+                            file=M.mod.path, line=fn.lineno, path=res.path_lines(g.exitT, yes[0]))
                 else:
-                    bad = 'the queued order is not a work order built from the request'
-                if not bad and f'rec:enter_queue:{var}' not in st.flags:
-                    bad = "the accepted order is not recorded with an 'enter_queue' datapoint"
-                if not bad and 'scan-after-queue' not in st.flags:
-                    bad = 'the queue is not scanned after the order was added'
-            if bad:
-                o.fail(P, 'Maintainer.create_work_order', 'self._request_queue.append(request)', bad, file=M.mod.path, line=fn.lineno, path=res.path_lines(g.exitT, st))
+                    o2.witness((q, a_))
+                eff = [s_ for s_ in no if any(f.startswith(('rec:', 'queued', 'scan-', 'hook:')) for f in s_.flags)]
+                if eff:
+                    o.fail(P, 'Maintainer.create_work_order', None, f'{case}: the duplicate request is not simply rejected, it also does {sorted(f for f in eff[0].flags if f.startswith(("rec:", "queued", "scan-", "hook:")))}',
+                           file=M.mod.path, line=fn.lineno, path=res.path_lines(g.exitF, eff[0]))
+                else:
+                    o.witness(('rejected', q, a_))
+                continue
+            if no:
+                o2.fail(P, 'Maintainer.create_work_order', 'for r in self._request_queue / self._active_requests: if r.target == target and r.tag == tag: return False',
+                        f'{case}: the request can be rejected although it is not a duplicate', file=M.mod.path, line=fn.lineno, path=res.path_lines(g.exitF, no[0]))
             else:
-                o.witness('accept-path')
-        o.sample({'duplicate_test': d.src(), 'true_exits': len(res.at(g.exitT)), 'false_exits': len(res.at(g.exitF))})
-
-    # ---- C12.2 -----------------------------------------------------------------------------------
-    o = Ob('C12.2', 'K6', 'the duplicate test scans the queue and the active list for an order with the same target and the same tag')
-    obs.append(o)
-    fn = P.method(M, '_is_work_order_requested')[1]
-    dparams = [a.arg for a in fn.args.args][1:]
-    member_tests = [x for x in ast.walk(fn) if isinstance(x, ast.Compare) and len(x.ops) == 1 and isinstance(x.ops[0], (ast.In, ast.NotIn))
-                    and ast.unparse(x.comparators[0]) in ('self._request_queue', 'self._active_requests')]
-    if len(dparams) < 2 or member_tests:
-        # the duplicate test is phrased as membership (`order in list`): the relation is the equality of the order class
-        o.count()
-        WO = P.cls('_WorkOrder') if P.has_cls('_WorkOrder') else None
-        rel = None
-        if WO is not None:
-            if '__eq__' in WO.methods:
-                rel = 'a user-defined __eq__ (not analysed)'
-            elif any(ast.unparse(d).split('(')[0] in ('dataclass', 'dataclasses.dataclass') for d in WO.node.decorator_list):
-                flds = [st.target.id for st in WO.node.body if isinstance(st, ast.AnnAssign) and isinstance(st.target, ast.Name)
-                        and not (isinstance(st.value, ast.Call) and any(k.arg == 'compare' and isinstance(k.value, ast.Constant) and k.value.value is False for k in st.value.keywords))]
-                rel = 'equality of the fields ' + str(flds)
-                if sorted(flds) == ['tag', 'target']:
-                    rel = None
-            else:
-                rel = 'object identity (the class defines no __eq__), so a freshly built order is never found'
-        covered_lists = {ast.unparse(x.comparators[0]) for x in member_tests}
-        if rel is not None or covered_lists != {'self._request_queue', 'self._active_requests'}:
-            o.fail(P, 'Maintainer._is_work_order_requested', member_tests[0] if member_tests else fn,
-                   f'the duplicate test is a membership test whose relation is {rel or "over " + str(sorted(covered_lists))}; an order is a duplicate iff an order with the same target AND the same tag '
-                   '(nothing more, nothing less) is queued or in progress', file=M.mod.path, line=fn.lineno)
-        else:
-            o.witness('membership')
-        dup_by_membership = True
-    else:
-        dup_by_membership = False
-    tp, gp = (dparams + [None, None])[:2]
-    gd = ctx.graph(M, '_is_work_order_requested', boolean=True)
-    EL = ExistsLoops({'self._request_queue': '#dupQ', 'self._active_requests': '#dupA'}, [('target', eq_fact('target', tp)), ('tag', eq_fact('tag', gp))])
-    and_ = Analysis(P, gd, EL.fields())
-    EL.install(and_)
-    import itertools
-    for q, a_ in ([] if dup_by_membership else itertools.product('TF', 'TF')):
-        res = ctx.explore(and_, [State(EL.entry(**{'#dupQ': q, '#dupA': a_}))])
-        yes, no = res.at(gd.exitT), res.at(gd.exitF)
-        o.count()
-        want = q == 'T' or a_ == 'T'
-        case = f'an order with the same target and tag is {"" if q == "T" else "not "}queued and {"" if a_ == "T" else "not "}in progress'
-        bad = None
-        if not yes and not no:
-            bad = 'the duplicate test has no normal exit'
-        elif want and no:
-            bad = 'the duplicate test can answer False'
-            ex, st_ = gd.exitF, no[0]
-        elif not want and yes:
-            bad = 'the duplicate test can answer True'
-            ex, st_ = gd.exitT, yes[0]
-        if bad:
-            o.fail(P, 'Maintainer._is_work_order_requested', 'for r in self._request_queue / self._active_requests: if r.target == target and r.tag == tag: return True',
-                   f'{case}: {bad} (an order is a duplicate iff an order with the same target AND the same tag is queued or in progress)', file=M.mod.path, line=fn.lineno,
-                   path=res.path_lines(ex, st_) if not bad.endswith('exit') else None)
-        else:
-            o.witness((q, a_))
-    o.sample({'cases': 'duplicate queued x duplicate in progress (4 combinations)', 'graph_nodes': len(gd.nodes),
-              'model': 'search loops explored with abstract elements: match (target and tag equal) / other'})
+                o2.witness((q, a_))
+            for st in yes:
+                o.count()
+                qd = [f for f in st.flags if f.startswith('queued:')]
+                bad = None
+                if len(qd) != 1 or 'queued-not-at-tail' in st.flags:
+                    bad = 'an accepted order must be appended once at the tail of the queue'
+                else:
+                    var = qd[0].split(':', 1)[1]
+                    d_ = defs.get(var)
+                    wo_args = None
+                    if isinstance(d_, ast.Call) and ast.unparse(d_.func) == '_WorkOrder' and P.has_cls('_WorkOrder'):
+                        wfn = P.method(P.cls('_WorkOrder'), '__init__')[1]
+                        wparams = [a__.arg for a__ in wfn.args.args][1:]
+                        bnd = dict(zip(wparams, d_.args))
+                        bnd.update({k.arg: k.value for k in d_.keywords if k.arg})
+                        if len(wparams) == 4 and set(bnd) == set(wparams):
+                            wo_args = [ast.unparse(bnd[p_]) for p_ in wparams]
+                    if wo_args is not None:
+                        a0, a1, a2, a3 = wo_args
+                        capd = defs.get(a2)
+                        capv = ast.unparse(capd) if capd is not None else a2
+                        if (a0, a1, a3) != (params[0], params[1], params[2]) or capv != f'{params[0]}.get_work_order_capacity({params[1]})':
+                            bad = 'the queued order must be built from (target, tag, capacity reported by the target for this tag, info)'
+                    else:
+                        bad = 'the queued order is not a work order built from the request'
+                    if not bad and f'rec:enter_queue:{var}' not in st.flags:
+                        bad = "the accepted order is not recorded with an 'enter_queue' datapoint"
+                    if not bad and 'scan-after-queue' not in st.flags:
+                        bad = 'the queue is not scanned after the order was added'
+                if bad:
+                    o.fail(P, 'Maintainer.create_work_order', 'self._request_queue.append(request)', bad, file=M.mod.path, line=fn.lineno, path=res.path_lines(g.exitT, st))
+                else:
+                    o.witness('accept-path')
+        o.require('accept-path' in o.nontrivial, 'no accepting path of create_work_order was explored')
+        o.sample({'graph_nodes': len(g.nodes), 'duplicate_test_inlined_from': [f_.name for f_ in search_fns]})
+        o2.sample({'cases': 'duplicate queued x duplicate in progress (4 combinations)',
+                   'model': 'search loops explored with abstract elements: match (target and tag equal) / other'})
 
     # ---- C12.3 the scan ----------------------------------------------------------------------------------
     o = Ob('C12.3', 'K14+K6', 'try_working_requests: scan from 0; start only if needed - capacity + utilization <= 0 and no active order on the same target; '
@@ -474,6 +428,167 @@ def seq_check(ctx, M, meth, o, N, need, forbid):
         else:
             o.witness(meth)
             o.sample({'handler': meth, 'steps': sorted(counts)})
+
+
+
+def _c12_12_by_helper(ctx, P, M, N, obs):
+    """C12.1 / C12.2 when the duplicate test lives in the helper _is_work_order_requested and is phrased as a membership test (`order in list`)"""
+    # ---- C12.1 ---------------------------------------------------------------------------------
+    o = Ob('C12.1', 'K2', 'create_work_order: False <=> duplicate; otherwise enter_queue recorded, order appended at the tail with the reported capacity, scan triggered, True')
+    obs.append(o)
+    RH = dv.record_helper(P, M)
+    if RH is None:
+        raise AnalysisError('Maintainer: the helper that records work-order datapoints was not found')
+    g = ctx.graph(M, 'create_work_order', boolean=True, opaque=('_is_work_order_requested', 'try_working_requests', RH[0]))
+    fn = P.method(M, 'create_work_order')[1]
+    dup = [(n, cl) for n in g.nodes.values() for cl in calls_at(g, n) if call_attr(cl) == '_is_work_order_requested']
+    o.count()
+    params = [a.arg for a in fn.args.args][1:]
+    def _dup_args(c_, frame):
+        b_ = dv.bind_method_call(P, M, c_) or {}
+        return [dv.canon_text(v, frame) for v in b_.values()]
+    if len(dup) != 1 or _dup_args(dup[0][1], dup[0][0].frame) != params[:2]:
+        o.fail(P, 'Maintainer.create_work_order', 'if self._is_work_order_requested(target, tag): return False', 'the duplicate test on (target, tag) is missing or tests something else',
+               file=M.mod.path, line=fn.lineno)
+    else:
+        d = dup[0][0]
+        o.witness('dup-test')
+        # the answer of the duplicate test is a ghost: for both values the operation is explored to its true / false exits (the test may be
+        # used directly as a condition, negated, or kept in a local)
+        def effect_hook(an_, n, before, after):
+            st = after
+            if n is d:
+                st = st.with_flag('tested')
+            elif n.kind == 'stmt' and 'tested' in st.flags and any(call_attr(c_) != '_is_work_order_requested' for c_ in calls_at(g, n)):
+                st = st.with_flag('effect')       # anything done after the test has answered "duplicate"
+            return st
+        and_ = Analysis(P, g, ['#dup'], call_models={'_is_work_order_requested': lambda call, st, frame: st.fields.get('#dup', TOP)})
+        and_.node_hooks.append(effect_hook)
+        o.count(2)
+        for dv_ in 'TF':
+            resd = ctx.explore(and_, [State({'#dup': dv_})])
+            yes, no = resd.at(g.exitT), resd.at(g.exitF)
+            if dv_ == 'T' and (yes or any('effect' in s_.flags for s_ in no)):
+                o.fail(P, 'Maintainer.create_work_order', None, 'a duplicate request is not simply rejected (returns True or has effects)', node=d)
+            if dv_ == 'F' and no:
+                o.fail(P, 'Maintainer.create_work_order', None, 'a new request can be rejected although it is not a duplicate', node=d)
+
+        def hook(an, n, before, after):
+            st = after
+            for cl in calls_at(an.g, n):
+                nm = call_attr(cl)
+                rc = dv.record_call(cl, RH)
+                if rc is not None:
+                    st = st.with_flag('rec:' + rc[0] + ':' + rc[1][0] if rc[1] else 'rec:?')
+                if nm == 'append' and is_self_attr(cl.func.value, '_request_queue'):
+                    st = st.with_flag('queued:' + ast.unparse(cl.args[0]))
+                if nm in ('insert', 'appendleft', 'extend') and is_self_attr(cl.func.value, '_request_queue'):
+                    st = st.with_flag('queued-not-at-tail')
+                if nm == 'try_working_requests':
+                    st = st.with_flag('scan-after-queue' if any(f.startswith('queued:') for f in st.flags) else 'scan-before-queue')
+            return st
+        an = Analysis(P, g, ['#dup'], call_models={'_is_work_order_requested': lambda call, st, frame: st.fields.get('#dup', TOP)})
+        an.node_hooks.append(hook)
+        res = ctx.explore(an, [State({'#dup': 'F'})])
+        defs = single_defs(fn)
+        for st in res.at(g.exitT):
+            o.count()
+            q = [f for f in st.flags if f.startswith('queued:')]
+            bad = None
+            if len(q) != 1 or 'queued-not-at-tail' in st.flags:
+                bad = 'an accepted order must be appended once at the tail of the queue'
+            else:
+                var = q[0].split(':', 1)[1]
+                d_ = defs.get(var)
+                capv = None
+                wo_args = None
+                if isinstance(d_, ast.Call) and ast.unparse(d_.func) == '_WorkOrder' and P.has_cls('_WorkOrder'):
+                    wfn = P.method(P.cls('_WorkOrder'), '__init__')[1]
+                    wparams = [a_.arg for a_ in wfn.args.args][1:]
+                    bnd = dict(zip(wparams, d_.args))
+                    bnd.update({k.arg: k.value for k in d_.keywords if k.arg})
+                    if len(wparams) == 4 and set(bnd) == set(wparams):
+                        wo_args = [ast.unparse(bnd[p_]) for p_ in wparams]
+                if wo_args is not None:
+                    a0, a1, a2, a3 = wo_args
+                    capd = defs.get(a2)
+                    capv = ast.unparse(capd) if capd is not None else a2
+                    if (a0, a1, a3) != (params[0], params[1], params[2]) or capv != f'{params[0]}.get_work_order_capacity({params[1]})':
+                        bad = 'the queued order must be built from (target, tag, capacity reported by the target for this tag, info)'
+                else:
+                    bad = 'the queued order is not a work order built from the request'
+                if not bad and f'rec:enter_queue:{var}' not in st.flags:
+                    bad = "the accepted order is not recorded with an 'enter_queue' datapoint"
+                if not bad and 'scan-after-queue' not in st.flags:
+                    bad = 'the queue is not scanned after the order was added'
+            if bad:
+                o.fail(P, 'Maintainer.create_work_order', 'self._request_queue.append(request)', bad, file=M.mod.path, line=fn.lineno, path=res.path_lines(g.exitT, st))
+            else:
+                o.witness('accept-path')
+        o.sample({'duplicate_test': d.src(), 'true_exits': len(res.at(g.exitT)), 'false_exits': len(res.at(g.exitF))})
+
+    # ---- C12.2 -----------------------------------------------------------------------------------
+    o = Ob('C12.2', 'K6', 'the duplicate test scans the queue and the active list for an order with the same target and the same tag')
+    obs.append(o)
+    fn = P.method(M, '_is_work_order_requested')[1]
+    dparams = [a.arg for a in fn.args.args][1:]
+    member_tests = [x for x in ast.walk(fn) if isinstance(x, ast.Compare) and len(x.ops) == 1 and isinstance(x.ops[0], (ast.In, ast.NotIn))
+                    and ast.unparse(x.comparators[0]) in ('self._request_queue', 'self._active_requests')]
+    if len(dparams) < 2 or member_tests:
+        # the duplicate test is phrased as membership (`order in list`): the relation is the equality of the order class
+        o.count()
+        WO = P.cls('_WorkOrder') if P.has_cls('_WorkOrder') else None
+        rel = None
+        if WO is not None:
+            if '__eq__' in WO.methods:
+                rel = 'a user-defined __eq__ (not analysed)'
+            elif any(ast.unparse(d).split('(')[0] in ('dataclass', 'dataclasses.dataclass') for d in WO.node.decorator_list):
+                flds = [st.target.id for st in WO.node.body if isinstance(st, ast.AnnAssign) and isinstance(st.target, ast.Name)
+                        and not (isinstance(st.value, ast.Call) and any(k.arg == 'compare' and isinstance(k.value, ast.Constant) and k.value.value is False for k in st.value.keywords))]
+                rel = 'equality of the fields ' + str(flds)
+                if sorted(flds) == ['tag', 'target']:
+                    rel = None
+            else:
+                rel = 'object identity (the class defines no __eq__), so a freshly built order is never found'
+        covered_lists = {ast.unparse(x.comparators[0]) for x in member_tests}
+        if rel is not None or covered_lists != {'self._request_queue', 'self._active_requests'}:
+            o.fail(P, 'Maintainer._is_work_order_requested', member_tests[0] if member_tests else fn,
+                   f'the duplicate test is a membership test whose relation is {rel or "over " + str(sorted(covered_lists))}; an order is a duplicate iff an order with the same target AND the same tag '
+                   '(nothing more, nothing less) is queued or in progress', file=M.mod.path, line=fn.lineno)
+        else:
+            o.witness('membership')
+        dup_by_membership = True
+    else:
+        dup_by_membership = False
+    tp, gp = (dparams + [None, None])[:2]
+    gd = ctx.graph(M, '_is_work_order_requested', boolean=True)
+    EL = ExistsLoops({'self._request_queue': '#dupQ', 'self._active_requests': '#dupA'}, [('target', eq_fact('target', tp)), ('tag', eq_fact('tag', gp))])
+    and_ = Analysis(P, gd, EL.fields())
+    EL.install(and_)
+    import itertools
+    for q, a_ in ([] if dup_by_membership else itertools.product('TF', 'TF')):
+        res = ctx.explore(and_, [State(EL.entry(**{'#dupQ': q, '#dupA': a_}))])
+        yes, no = res.at(gd.exitT), res.at(gd.exitF)
+        o.count()
+        want = q == 'T' or a_ == 'T'
+        case = f'an order with the same target and tag is {"" if q == "T" else "not "}queued and {"" if a_ == "T" else "not "}in progress'
+        bad = None
+        if not yes and not no:
+            bad = 'the duplicate test has no normal exit'
+        elif want and no:
+            bad = 'the duplicate test can answer False'
+            ex, st_ = gd.exitF, no[0]
+        elif not want and yes:
+            bad = 'the duplicate test can answer True'
+            ex, st_ = gd.exitT, yes[0]
+        if bad:
+            o.fail(P, 'Maintainer._is_work_order_requested', 'for r in self._request_queue / self._active_requests: if r.target == target and r.tag == tag: return True',
+                   f'{case}: {bad} (an order is a duplicate iff an order with the same target AND the same tag is queued or in progress)', file=M.mod.path, line=fn.lineno,
+                   path=res.path_lines(ex, st_) if not bad.endswith('exit') else None)
+        else:
+            o.witness((q, a_))
+    o.sample({'cases': 'duplicate queued x duplicate in progress (4 combinations)', 'graph_nodes': len(gd.nodes),
+              'model': 'search loops explored with abstract elements: match (target and tag equal) / other'})
 
 
 CLAIM = {
